@@ -227,6 +227,37 @@ CHECKS.update({
 
 LEVELS = {"C05": "fault_enumeration"}
 
+CHECKS.update({
+    "C07": (
+        "metamorphic fix-point monitor: loads -> dumps -> loads -> dumps with "
+        "the independent normaliser and a set-order-insensitive text "
+        "comparison",
+        "t0 from the free-spelling/free-layout generator (including "
+        "empty-value placeholders, leap-second strings, units on sequences, "
+        "mixed-case keywords, quoted value-like and folded multi-line "
+        "strings), all 55 tests/data files and line-deleted variants; for "
+        "each of the 4 encoders (default and random options): m1 ~ m2, "
+        "m2.errors empty, t1 == t2 up to set element order.",
+        "Normaliser of DESIGN 3.7; documents with a sequence inside a set "
+        "are not generated (listed under C03).",
+        "DESIGN.md section 4 C07",
+    ),
+    "C09": (
+        "differential monitor over 8 entry points + dump-target monitor + "
+        "trace monitor (counting lexer via lexer_fn: last token requested is "
+        "END, lexer not run to the end of the text)",
+        "Generated ASCII labels with 9 classes of trailing bytes (random "
+        "binary, high bytes first, UTF-8 text, PVL-looking text, NULs, "
+        "punctuation, long unbroken runs, undecodable byte at 4096/8192/16384 "
+        "boundaries) and 5 separators, plus non-ASCII UTF-8 labels; through "
+        "load(str|Path|text stream|binary stream|BytesIO), loadu(file URL), "
+        "loads(str|bytes); dump to path/Path/text/binary/BytesIO/StringIO "
+        "compared byte for byte with dumps and the returned length.",
+        "file: URLs only; scratch files under /dev/shm.",
+        "DESIGN.md section 4 C09",
+    ),
+})
+
 NOT_YET = "check not built yet in this round (work in progress; see DESIGN.md section 8 build order)"
 
 ALL = [f"C{n:02d}" for n in range(1, 21)]
